@@ -44,6 +44,13 @@ CHECKS = {
  'C13': dict(sec='3/C13', tech='TLC on DataQuality.tla (arbitrary batch cuts, ghost of consumed rows) + replay of every history into the real compute_coverage/compute_cardinalities/compute_value_counts + TraceQuality.tla on recorded multi-split runs + CLI outputs across minibatch sizes',
              text='DataQuality.tla lets the environment append rows and consume the buffer at arbitrary moments, so every composition of the row count is explored; CardinalityExact, HistogramExact, RareReportExact, CoverageIsPerBatch compare the process-global state with the exact recomputation over the ghost of consumed rows, which makes split-independence a one-run invariant; every history is replayed through the real functions; per-batch states of real runs over one file with several minibatch sizes are validated by TraceQuality.tla and compared across splits; the CLI annotations, value_repetitions.json and rare_values.tsv are compared across splits and with the recomputation.',
              note='exhaustive histories of <=5 rows; recorded runs of 1200-3000 rows; cardinality in the exact phase of the sketch'),
+
+ 'C14': dict(sec='3/C14', tech='TLC on HLL.tla (real class scaled down through its attributes, bucket map measured from the real hash) + replay of every insertion sequence + TraceHLL.tla on full-scale boundary-crossing runs',
+             text='HLL.tla models warm-up set, conversion and register phase; ExactWhileWarm, ConversionLosesNothing and the action property DuplicateBlind are model-checked over every insertion sequence of a bounded space; each sequence is replayed on the real class (p=3, capacity 3); full-scale runs of the unmodified class crossing 2^18 in several orders and up to 2^20/2^21 distinct values are recorded add by add near the boundary and validated by TraceHLL.tla (exactness, 2% bound, duplicate-blindness).',
+             note='the 2% clause is decided on the seeded full-scale runs; the linear-counting table of the scaled model is computed by the harness'),
+ 'C15': dict(sec='3/C15', tech='TLC on CMS.tla (all hash functions, all bounded streams; bounded counter) + replay of every counter stream + TraceCMS.tla on recorded real count-min streams',
+             text='CMS.tla chooses an arbitrary hash function at Init and explores every update stream: NeverUnder, NeverOverTotal, RowSumsAreTotal; the bounded counter machine is model-checked and every stream replayed on the real class; real CountMinSketch objects of many shapes and seeds are driven by seeded streams and each update (locations under the real hash, all query results, row sums) is validated by TraceCMS.tla against the model under a function Hash.',
+             note='exhaustive for D<=3, W<=3, <=3 items, streams <=5; real streams seeded (40 quick / 400 thorough)'),
 }
 
 checks = []
